@@ -299,8 +299,16 @@ def work(chunk_id, payload):
         settings = dict(p_tol=tol, iter=it,
                         m_error=(rng.random() < (0.6 if far else 0.3) and
                                  ctype not in ("T16", "U16")))
+        if not far and rng.random() < 0.15:
+            # neither tolerance is ever set: the documented defaults (1e-6)
+            # are what the result is held to
+            tol = 1e-6
+            del settings["p_tol"]
+            info["kinds"] = ["default_tolerances"] + list(info.get("kinds", []))
+            bump("lm_scenarios_with_default_tolerances")
         info["far"] = far
-        if not far and not settings["m_error"] and rng.random() < 0.35:
+        if not far and not settings["m_error"] and "p_tol" in settings and \
+                rng.random() < 0.35:
             # the two tolerances set independently: the parameters are held
             # to p_tolerance however loosely the error terms are allowed to
             # settle
